@@ -472,6 +472,7 @@ func offerDoc(c *core.Case, e *entry, doc []byte, muts []string) {
 		c.Count("documents_accepted", 1)
 		// whatever was accepted is a value of the type: encoding it must not panic
 		encodeAll(c, typ, target)
+		exerciseDecoded(c, e, target, "decoded document")
 	}
 	m := "none"
 	if len(muts) > 0 {
